@@ -1166,6 +1166,23 @@ func isTupleWithRef(t types.Type) bool {
 // ---------------------------------------------------------------------------------------------
 // R-CLOSURE
 
+// taintedAny: base is a load of a local cell (or captured cell) known to hold descriptor memory.
+func taintedAny(base ssa.Value, cells map[*ssa.Alloc]string, binding func(*ssa.FreeVar) *ssa.Alloc) bool {
+	ld, ok := base.(*ssa.UnOp)
+	if !ok {
+		return false
+	}
+	switch cell := ld.X.(type) {
+	case *ssa.Alloc:
+		return cells[cell] != ""
+	case *ssa.FreeVar:
+		if a := binding(cell); a != nil {
+			return cells[a] != ""
+		}
+	}
+	return false
+}
+
 var descriptorTypes = map[string]bool{
 	"json.structType": true, "json.structField": true, "json.codec": true,
 	"proto.codec": true, "proto.structField": true, "proto.mapField": true, "proto.repeatedField": true,
@@ -1270,6 +1287,78 @@ func runClosure(c *core.Ctx) []core.Obligation {
 		fns = append(fns, fn)
 	}
 	sort.Slice(fns, func(i, j int) bool { return shortName(fns[i]) < shortName(fns[j]) })
+	// descriptor memory aliased into a per-call variable: a slice or map loaded from a descriptor
+	// field and kept in a local (possibly merged with a fresh one by a φ) is still the descriptor's
+	// memory; the local cells that may hold one are remembered so that closures writing through
+	// them are seen
+	fromDescriptor := func(v ssa.Value) string {
+		seen := map[ssa.Value]bool{}
+		var walk func(v ssa.Value) string
+		walk = func(v ssa.Value) string {
+			if v == nil || seen[v] {
+				return ""
+			}
+			seen[v] = true
+			switch y := v.(type) {
+			case *ssa.Phi:
+				for _, e := range y.Edges {
+					if k := walk(e); k != "" {
+						return k
+					}
+				}
+			case *ssa.Slice:
+				return walk(y.X)
+			case *ssa.UnOp:
+				if y.Op == token.MUL {
+					if fa, ok := y.X.(*ssa.FieldAddr); ok {
+						if k := namedKey(fa.X.Type()); descriptorTypes[k] && (isSliceType(y.Type()) || isMapType(y.Type())) {
+							if _, fresh := fa.X.(*ssa.Alloc); !fresh {
+								return k
+							}
+						}
+					}
+				}
+			}
+			return ""
+		}
+		return walk(v)
+	}
+	taintedCell := map[*ssa.Alloc]string{}
+	for _, fn := range fns {
+		for _, blk := range fn.Blocks {
+			for _, in := range blk.Instrs {
+				if st, ok := in.(*ssa.Store); ok {
+					if a, isA := st.Addr.(*ssa.Alloc); isA {
+						if k := fromDescriptor(st.Val); k != "" {
+							taintedCell[a] = k
+						}
+					}
+				}
+			}
+		}
+	}
+	closureBinding := func(fv *ssa.FreeVar) *ssa.Alloc {
+		fn := fv.Parent()
+		idx := -1
+		for i, f := range fn.FreeVars {
+			if f == fv {
+				idx = i
+			}
+		}
+		if fn.Parent() == nil || idx < 0 {
+			return nil
+		}
+		for _, blk := range fn.Parent().Blocks {
+			for _, in := range blk.Instrs {
+				if mc, ok := in.(*ssa.MakeClosure); ok && mc.Fn == ssa.Value(fn) && idx < len(mc.Bindings) {
+					if a, isA := mc.Bindings[idx].(*ssa.Alloc); isA {
+						return a
+					}
+				}
+			}
+		}
+		return nil
+	}
 	for _, fn := range fns {
 		key := "steady:" + shortName(fn)
 		// closures created by a steady-state function capture per-call cells
@@ -1284,8 +1373,50 @@ func runClosure(c *core.Ctx) []core.Obligation {
 					addr, what = x.Addr, "store"
 				case *ssa.MapUpdate:
 					addr, what = x.Map, "map update"
+				case *ssa.Call:
+					// clear(x) / copy(x, …) write the memory of x
+					if bi, isB := x.Call.Value.(*ssa.Builtin); isB && (bi.Name() == "clear" || bi.Name() == "copy") && len(x.Call.Args) > 0 {
+						if k := fromDescriptor(x.Call.Args[0]); k != "" {
+							bads = append(bads, fmt.Sprintf("%s of memory loaded from a %s descriptor at %s", bi.Name(), k, c.InstrPos(in)))
+						}
+					}
+					continue
 				default:
 					continue
+				}
+				// memory reached through a slice/map that may be a descriptor's (φ-merged, or kept
+				// in a captured local)
+				{
+					base := addr
+					for i := 0; i < 6; i++ {
+						if ia, ok := base.(*ssa.IndexAddr); ok {
+							base = ia.X
+							continue
+						}
+						break
+					}
+					if base != addr || what == "map update" {
+						k := fromDescriptor(base)
+						if k == "" {
+							if ld, ok := base.(*ssa.UnOp); ok && ld.Op == token.MUL {
+								switch cell := ld.X.(type) {
+								case *ssa.Alloc:
+									k = taintedCell[cell]
+								case *ssa.FreeVar:
+									if a := closureBinding(cell); a != nil {
+										k = taintedCell[a]
+									}
+								}
+							}
+						}
+						if _, isPhi := base.(*ssa.Phi); k != "" && (isPhi || true) {
+							// plain loads of descriptor fields are handled (and reported) below
+							if _, direct := base.(*ssa.UnOp); !direct || taintedAny(base, taintedCell, closureBinding) {
+								bads = append(bads, fmt.Sprintf("%s into memory that can be a %s descriptor's (aliased into a local) at %s", what, k, c.InstrPos(in)))
+								continue
+							}
+						}
+					}
 				}
 				// (a) captured variable shared between calls
 				root := addr
